@@ -231,6 +231,14 @@ def run_property(pid: str, tier: str, seed: int, replay: str | None) -> int:
             ctx.note("leanchecker failed: " + cout[-500:])
             raise Infra("leanchecker failed: " + cout[-1000:])
 
+    try:
+        import covlib
+        cov = covlib.summary(pid, os.environ.get("VERIF_COV_DIR"))
+        if cov:
+            ctx.extra_cov["anchored_lines"] = cov
+    except Exception as e:  # measurement only: never affects the verdict
+        ctx.note("anchored-line coverage unavailable: %r" % (e,))
+
     distinct_nt = len({o[0] for o in ops if not getattr(mod, "trivial", lambda _op: False)(o[0])})
     rnd = lib.random.Random(seed)
     samples = [{"op": o[0][:300], "impl": o[1][:300]} for o in rnd.sample(ops, min(5, len(ops)))]
